@@ -52,6 +52,16 @@ REQS = [
     (b"titan://example.org/f;size=0\r\n", "titan-delete", 0),
 ]
 
+# only for the stall-at-every-offset enumeration (complete, these are refused with 59 or served like any other):
+STALL_REQS = [
+    # what is buffered when the peer goes silent need not be text: multi-byte characters cut in the middle,
+    # bytes that are no UTF-8 at all, binary upload content, a long line with a character straddling byte 64
+    ("gemini://example.org/caf\u00e9/\u65e5\u672c?\u00fc\r\n".encode(), "gemini-non-ascii", None),
+    (b"gemini://example.org/\xff\xfe\x80?\xc3\r\n", "gemini-invalid-utf8", None),
+    (b"titan://example.org/b;size=9;mime=application/octet-stream\r\n\xff\x00\xfe\x80\xc3\x28\x00\xe2\x82", "titan-binary", 9),
+    (("gemini://example.org/" + "a" * 42 + "\u20ac\u20ac/x\r\n").encode(), "gemini-long-multibyte-at-64", None),
+]
+
 
 def l1_stall(ctx, data, label, i, uploads, with_mw, cuts=()):
     from nauyaca.server import protocol as P
@@ -83,7 +93,7 @@ def run_l1(ctx):
 
     T = P.REQUEST_TIMEOUT
     k = 0
-    for data, label, size in REQS:
+    for data, label, size in REQS + STALL_REQS:
         for uploads in (True, False):
             for with_mw in (False, True):
                 titan = label.startswith("titan")
